@@ -91,6 +91,7 @@ PROPS = {
         "assumptions": KV_ASSUME + ["an armed time.AfterFunc timer fires at its deadline (Go runtime)", "timer firings in the kv family are placed by the history (the real timer's callback is parked by the expiry.fire hook and the callback is run synchronously by 'expire' steps)"],
     },
     "C19": _kv("C19", "Proved on the model's store, for every reachable store: the $_keyspace sub-query of a collection ranges over exactly the documents of that collection that have a body, with their current id, body and xattrs (C19_keyspace_is_live_docs), each once (C19_each_once); ORDER BY neither drops nor invents rows. A family of eight statements (ids, hex bodies, count, id filter, body-property filter, xattr-property filter, xattr projection, DESC/LIMIT) is evaluated in the model and compared exactly, row text for row text, with Collection.Query on in-memory (pre-recorded iterator) and on-disk (streaming iterator) buckets after arbitrary histories over three collections; the trace checker re-evaluates each query over the key-value read-back of the collection (acceptance of model traces checked by evaluation). SQLite's evaluator (json_valid, ->>, hex, ORDER BY, LIMIT) is modelled by eval_query, not verified.", model_chk=True),
+    "C12": _kv("C12", "Model of views.go/designdoc.go in Store.v: design documents, views.lastCas vs the collection's lastCas, incremental updateView (delete rows of documents with cas > views.lastCas, re-map them), cascade on purge/drop, JSON collation, startkey/endkey/inclusive_end/key/limit/descending, four JavaScript map functions with Gallina twins. The executable checker states the property directly - a non-stale query equals the map function applied to the key-value read-back of the collection's current documents, collated and filtered - and is evaluated on implementation traces and on the model's traces (PROOF STATUS: acceptance of model traces is checked by evaluation on every run; the invariant proof 'every document is correctly indexed or pending re-mapping' is in progress, see DESIGN.md). View queries are placed anywhere in histories with deletes, resurrections, xattr-only writes, purges, WithMeta writes, design-document replacement through another handle, collection drop and reopen; results are compared exactly with the model. otto (JavaScript), SQLite's ORDER BY with the JSON collation and sg-bucket's ProcessParsed are modelled, not verified; reduce/group and keys=[...] are outside the modelled subset.", model_chk=True),
     "C17": _kv("C17", "Full proof on the model: every successful mutation through any entry point raises the key's revision number by exactly one (1 on creation or re-creation after purge), failed calls leave it, and live events carry the stored number (C17_holds, all histories)."),
     "C04": {
         "families": [{"family": "c04"}],
